@@ -1884,6 +1884,10 @@ class TLSConnection(TLSRecordLayer):
                                     clientRandom, serverHello.random,
                                     settings.cipherImplementations)
 
+            # a failure of this handshake must invalidate the session that is
+            # being resumed (RFC 5246 7.2.2): _shutdown() acts on self.session
+            self.session = session
+
             #Exchange ChangeCipherSpec and Finished messages
             ticket_announced = serverHello.getExtension(
                 ExtensionType.session_ticket) is not None
@@ -4256,6 +4260,10 @@ class TLSConnection(TLSRecordLayer):
                                         clientHello.random,
                                         serverHello.random,
                                         settings.cipherImplementations)
+
+                # a failure of this handshake must invalidate the cached
+                # session (RFC 5246 7.2.2): _shutdown() acts on self.session
+                self.session = session
 
                 #Exchange ChangeCipherSpec and Finished messages
                 for result in self._sendFinished(session.masterSecret,
